@@ -200,7 +200,7 @@ type c11Config struct {
 	defLang  string
 	ctxLang  string // "" unset
 	langKey  string
-	testLvl  int // 0 none, 1 Message, 2 MessageFunc
+	testLvl  int // 0 none, 1 Message, 2 MessageFunc, 3 MessageFunc in two steps, 4 MessageFunc decorating the stock text
 	execLvl  int // 0 none, 1 WithIssueFormatter, 2 WithErrFormatter (deprecated spelling)
 	expLang  string
 	saved    map[string]map[string]string // global == 2: the shipped templates, restored after the execution
@@ -231,7 +231,7 @@ func c11ChooseConfig(x *mc.X, e *c11Entry) *c11Config {
 		}
 	}
 	if !e.noOpts {
-		c.testLvl = x.Choose(4, "testLevel")
+		c.testLvl = x.Choose(5, "testLevel")
 	}
 	c.execLvl = x.Choose(5, "execLevel")
 	return c
@@ -285,6 +285,12 @@ func (c *c11Config) testOpts() []z.TestOption {
 		return []z.TestOption{z.MessageFunc(func(e *z.ZogIssue, ctx z.Ctx) {
 			conf.DefaultIssueFormatter(e, ctx)
 			e.SetMessage("TESTFUNC:" + e.Code)
+		})}
+	case 4:
+		// a formatter that decorates the stock text: it reads the issue it is handed (code, params, value)
+		return []z.TestOption{z.MessageFunc(func(e *z.ZogIssue, ctx z.Ctx) {
+			conf.DefaultIssueFormatter(e, ctx)
+			e.SetMessage("TESTFUNC:" + e.Code + ":" + e.Message)
 		})}
 	}
 	return nil
@@ -364,6 +370,14 @@ func c11CheckIssue(is *z.ZogIssue, wantDtype, wantCode, pkey string, pval any, c
 	case cfg.testLvl == 1:
 		if is.Message != "TESTMSG" {
 			return "precedence", fmt.Sprintf("message %q is not the test's own Message", is.Message)
+		}
+	case cfg.testLvl == 4:
+		// the stock text behind the prefix was rendered from the issue the MessageFunc was handed: complete, no placeholder left (checked above)
+		if !strings.HasPrefix(is.Message, "TESTFUNC:"+is.Code+":") || len(is.Message) == len("TESTFUNC:"+is.Code+":") {
+			return "precedence", fmt.Sprintf("message %q is not the stock text decorated by the test's own MessageFunc", is.Message)
+		}
+		if lvl0 := c11StockText(is); lvl0 != "" && is.Message != "TESTFUNC:"+is.Code+":"+lvl0 {
+			return "precedence", fmt.Sprintf("message %q: the test's own MessageFunc did not see the issue the caller receives (stock text for it is %q)", is.Message, lvl0)
 		}
 	case cfg.testLvl >= 2:
 		if is.Message != "TESTFUNC:"+is.Code {
@@ -588,7 +602,7 @@ func c11FrontScenario(x *mc.X) *mc.Outcome {
 func init() {
 	Register(&Prop{
 		ID:    "C11",
-		Rule:  "the finite catalogue, completely: one execution = one (built-in test or required/not_nil/coerce of a schema type | front-end decode issue | Custom schema issue) × mode × placement {top, field, element} × test-level {none, Message, MessageFunc} × execution-level {none, WithIssueFormatter} × global {default formatter, i18n × default language {en,es} × context language {unset,en,es,unknown} × lang key {default, custom}} × pre-history {none, a caught issue with a custom message released, coerce+test issues collected}; every case is non-trivial (exactly one issue is produced and inspected); distinct = distinct configurations",
+		Rule:  "the finite catalogue, completely: one execution = one (built-in test or required/not_nil/coerce of a schema type | front-end decode issue | Custom schema issue) × mode × placement {top, field, element} × test-level {none, Message, MessageFunc, MessageFunc in two steps, MessageFunc decorating the stock text} × execution-level {none, WithIssueFormatter} × global {default formatter, i18n × default language {en,es} × context language {unset,en,es,unknown} × lang key {default, custom}} × pre-history {none, a caught issue with a custom message released, coerce+test issues collected}; every case is non-trivial (exactly one issue is produced and inspected); distinct = distinct configurations",
 		Floor: 100,
 		Bound: func(tier string) string {
 			return fmt.Sprintf("%d catalogue entries + 6 front-end/custom cases (front-end cases into Struct and into a top-level Ptr(Struct)), full product of all configuration dimensions", len(c11Catalogue()))
@@ -608,4 +622,13 @@ func init() {
 			return items
 		},
 	})
+}
+
+// c11StockText: the stock formatter applied to a copy of the issue as the caller received it.
+func c11StockText(is *z.ZogIssue) string {
+	cp := *is
+	cp.Message = ""
+	defer func() { recover() }()
+	conf.DefaultIssueFormatter(&cp, nil)
+	return cp.Message
 }
